@@ -27,13 +27,19 @@ def gen_scenario(rng, seed, idx, mt):
     uid = [0]
     setup = []
     pre = {}
-    if rng.random() < 0.6:
+    # compaction-heavy variant (current-thread leg): the table starts with several row-sets, the sessions
+    # pause between statements so that they span compactor passes, the clock lets 3-4 passes run and one
+    # directed gate holds the compactor (or a transaction) inside one of its windows
+    heavy = (not mt) and rng.random() < 0.5
+    if heavy or rng.random() < 0.6:
         setup.append("create table ta(uid int not null, k int)")
-        part = [(uid[0] + i, rng.randint(0, 3)) for i in range(rng.choice([0, 3, 7]))]
-        uid[0] += len(part)
-        if part:
-            setup.append("insert into ta values " + ", ".join(f"({u}, {v})" for u, v in part))
-        pre["ta"] = dict(part)
+        pre["ta"] = {}
+        for _ in range(rng.choice([2, 3]) if heavy else 1):
+            part = [(uid[0] + i, rng.randint(0, 3)) for i in range(rng.choice([3, 7]) if heavy else rng.choice([0, 3, 7]))]
+            uid[0] += len(part)
+            if part:
+                setup.append("insert into ta values " + ", ".join(f"({u}, {v})" for u, v in part))
+            pre["ta"].update(dict(part))
     actors, specs = [], []
     for s in range(k):
         stmts, spec = [], []
@@ -41,6 +47,10 @@ def gen_scenario(rng, seed, idx, mt):
         for _ in range(rng.randint(2, 6)):
             name = rng.choice(NAMES)
             x = rng.random()
+            if heavy:
+                # fewer DDL statements, more deletes on the pre-filled table: what compaction can undo
+                name = "ta" if rng.random() < 0.8 else name
+                x = rng.choice([0.1, 0.25, 0.4, 0.5, 0.62, 0.64, 0.66, 0.7, 0.72, 0.75, 0.78, 0.9])
             if x < 0.2:
                 stmts.append(f"create table {name}(uid int not null, k int)")
                 spec.append(("create", name, None))
@@ -68,15 +78,28 @@ def gen_scenario(rng, seed, idx, mt):
             else:
                 stmts.append(f"select uid, k from {name}")
                 spec.append(("select", name, None))
+            if heavy and rng.random() < 0.35:
+                stmts.append(f"<sleep {rng.choice([1, 500, 1000, 1001])}>")   # (no history entry)
         actors.append({"name": f"s{s}", "kind": "sql", "stmts": stmts, "stmt_timeout_ms": 900000})
         specs.append(spec)
     if not mt:
-        actors.append({"name": "clk", "kind": "clock", "ticks": rng.choice([1, 2]), "tick_ms": rng.choice([1001, 3])})
+        actors.append({"name": "clk", "kind": "clock", "ticks": rng.choice([3, 4]) if heavy else rng.choice([1, 2]),
+                       "tick_ms": 1001 if heavy else rng.choice([1001, 3])})
     sc = {"seed": seed * 100003 + idx, "block": 64, "rowset": rng.choice([200, 1000]), "crc": True, "mt": mt,
           "setup": setup, "actors": actors, "p_yield": rng.choice([0, 30, 70]), "max_yields": rng.choice([1, 4]),
           "p_sleep": rng.choice([0, 10]), "p_long_sleep": rng.choice([0, 10]), "p_sync_delay": rng.choice([0, 30]),
           "final": ["select * from pg_catalog.pg_tables"] + [f"select uid, k from {n}" for n in NAMES],
           "reopen": True, "final_ticks": 1 if mt else 2, "virtual_deadline_ms": 3_600_000}
+    if heavy:
+        sc["gates"] = [rng.choice([
+            {"actor": "bg", "point": "compactor.before_lock", "until": "commit"},
+            {"actor": "bg", "point": "compactor.before_lock", "until": "commit"},
+            {"actor": "bg", "point": "compactor.before_lock", "until": "commit", "count": 2},
+            {"actor": "bg", "point": "compactor.after_read", "until": "pin"},
+            {"actor": "bg", "point": "compactor.before_commit", "until": "pin"},
+            {"actor": "s0", "point": "txn.before_commit", "until": "compactor.committed"},
+            {"actor": "s1", "point": "txn.after_pin", "until": "compactor.committed"}])]
+        sc["p_yield"], sc["p_sleep"], sc["p_long_sleep"] = 15, 0, 0
     return sc, pre, specs
 
 
